@@ -213,6 +213,29 @@ func (check typecheck) comparison(n *node) error {
 	return nil
 }
 
+// caseExpr type checks a case expression of an expression switch against the switch tag.
+func (check typecheck) caseExpr(c, tag *node) error {
+	t0, t1 := c.typ, tag.typ
+	if t0 == nil || t1 == nil || isInterface(t0) || isInterface(t1) || t0.isNil() || t1.isNil() {
+		return nil
+	}
+	r0, r1 := t0.TypeOf(), t1.TypeOf()
+	if r0 == nil || r1 == nil {
+		return nil
+	}
+	ok := false
+	if t0.untyped || t1.untyped {
+		// An untyped constant must be of the kind of the other operand.
+		ok = isNumber(r0) && isNumber(r1) || isString(r0) && isString(r1) || isBoolean(r0) && isBoolean(r1)
+	} else {
+		ok = t0.assignableTo(t1) || t1.assignableTo(t0)
+	}
+	if !ok {
+		return c.cfgErrorf("invalid case in switch (mismatched types %s and %s)", t0.id(), t1.id())
+	}
+	return nil
+}
+
 var binaryOpPredicates = opPredicates{
 	aAdd: func(typ reflect.Type) bool { return isNumber(typ) || isString(typ) },
 	aSub: isNumber,
